@@ -13,6 +13,8 @@ oracle:      on the real code: state -> elements -> state < 1e-8 relative; eleme
              angular-momentum eccentricity and inclination, node/perigee/anomaly angles against an independent
              vector construction (node line, eccentricity vector) and in their principal ranges; Kepler's equation and
              the half-angle relation; same numbers for (6,), (1,6), (n,6)
+types:       harness/c07_types.py — the same values handed over as float32 / int / list / tuple / object / big-endian /
+             Fortran-ordered / strided / reversed / read-only input: float64 contents and bit-identical conversions, M, f
 histories:   harness/c07_hist.py — conversions, row views, row copies and in-place writes on a store of PosVel objects:
              oracle = every conversion handed out equals the conversion of a freshly built object with the current
              contents (plain-NumPy shadow of the writes), M/f belong to the current elements; correspondence = the
@@ -32,7 +34,7 @@ from . import common
 from .common import Ctx, frac
 from .geo_common import disagree as gdisagree, violate as gviolate, leancheck, run_corpus
 from .geo_common import PI, as_shape, close, fbits, fline, floats, qline, rats, rows_of, ulps
-from . import c07_hist
+from . import c07_hist, c07_types
 
 REL = 1e-8
 TWO_PI = 2 * PI
@@ -90,7 +92,7 @@ def run(ctx: Ctx):
     leancheck(ctx, "C07")
     ctx.rule = ("elements: a in [6600 km, 60000 km], e in [0.001, 0.95] (log-dense at small e, both ends), i in [0.01, pi-0.01] "
                 "(incl. polar, both ends, retrograde), Omega/omega/E in [0, 2pi) with octant boundaries and +-1e-9/1e-4 "
-                "neighbourhoods; shapes (6,), (1,6), (n,6); both directions. Histories (after every second case, thorough tier: sixth; one more on Position trs/llh or PositionDelta trs/enu objects after every fourth of these): 1-6 objects, 4-14 "
+                "neighbourhoods; shapes (6,), (1,6), (n,6); both directions. Typed inputs (after every fifth case): the values of 1-6 states or element sets, rounded so that float32 (or int32/int64: whole metres and m/s) holds them exactly, handed to PosVel as float32, int32, int64, nested list, tuple, object array, big-endian float64, read-only, Fortran-ordered, strided and negative-stride arrays. Histories (after every second case, thorough tier: sixth; one more on Position trs/llh or PositionDelta trs/enu objects after every fourth of these): 1-6 objects, 4-14 "
                 "operations out of PosVel(...), to_system, obj[int|slice] views (and views of views), obj[[rows]] copies, "
                 "obj[key] = values with key int / slice / : / (row, column) / list of rows, written to the source, to a view, "
                 "to a view of a view, to the conversion handed out or to a view of it; 8 scripted shapes of the pattern convert -> "
@@ -135,6 +137,13 @@ def run(ctx: Ctx):
             m = rng.choice([1, 1, 1, 2, 3, 3, 4, 5, 6, 6, 7])   # 3 and 6 rows: the array is as long as a row is wide
             shape = rng.choice(["1d", "1xk"]) if m == 1 else "nxk"
             els = [gen_elements(rng) for _ in range(m)]
+            if m > 1 and rng.random() < 0.15:
+                # an arc: the rows share the orbital plane and the line of apsides up to a slow drift
+                drift = rng.choice([0.0, 1e-9, 1e-7, 1e-6, 5e-6])
+                for j in range(1, m):
+                    els[j] = [els[0][0], els[0][1]] + [min(x * (1 + j * drift), math.nextafter(TWO_PI if c > 0 else PI - 0.01, 0))
+                                                        for c, x in enumerate(els[0][2:5])] + [els[j][5]]
+                ctx.count(f"arc:drift={drift}")
         case = {"fn": "kepler<->trs", "shape": shape, "elements": els}
         ctx.case(case, nontrivial=True)
         ctx.count(f"shape={shape}")
@@ -149,6 +158,8 @@ def run(ctx: Ctx):
             gviolate(ctx, f"raises:{type(e).__name__}", f"kepler/trs conversion raised {type(e).__name__}: {e}", case)
         if gi % 29 == 0:
             check_gm_sources(ctx)
+        if gi % 5 == 2:
+            typed_case(ctx)
         if gi % every == 0:
             history_case(ctx, c07_hist.TEMPLATES[(gi // every) % len(c07_hist.TEMPLATES)])
         if gi % (4 * every) == 1:   # the same machinery on the other two-system classes (Position trs/llh, PositionDelta trs/enu)
@@ -177,6 +188,19 @@ def history_case(ctx, template, recorded=None, family="posvel"):
         gviolate(ctx, f"history:harness-raises:{type(e).__name__}", f"history ({family}, {template}) raised {type(e).__name__}: {e}", {"fn": "history", "family": family, "template": template})
     if h is not None:
         ctx.case({"fn": "history", "family": family, "ops": h.ops, "lits": {k: np.asarray(v).tolist() for k, v in h.lits.items()}}, nontrivial=True)
+
+
+def typed_case(ctx, recorded=None):
+    """the same values handed to PosVel in other numeric types / memory layouts (harness/c07_types.py)"""
+    PosVel, GM = _imp()
+    try:
+        if recorded is not None:
+            c07_types.run_typed(ctx, PosVel, GM, recorded["system"], np.ascontiguousarray(np.array(recorded["values"], dtype=float)), recorded.get("how", "recorded"))
+        else:
+            c07_types.typed_case(ctx, PosVel, GM, gen_elements)
+    except Exception as e:
+        gviolate(ctx, f"typed-input:harness-raises:{type(e).__name__}", f"typed-input case raised {type(e).__name__}: {e}", {"fn": "typed-input"})
+    ctx.case({"fn": "typed-input", "n": ctx.evaluations}, nontrivial=True)
 
 
 def check_gm_sources(ctx):
@@ -366,6 +390,13 @@ def one_case(ctx, case, shape, els):
         u_true = math.atan2(float(np.dot(np.cross(nhat, r / rn), hhat)), float(np.dot(nhat, r / rn)))
         if angdiff(u_true, om + f) > 1e-10 * cond:
             gviolate(ctx, "true-anomaly-position", f"argument of latitude {u_true!r} != omega + f = {om + f!r}", ci)
+    # every row of an array converts like the single state it is
+    if m > 1:
+        for i, el in enumerate(els):
+            t1 = np.asarray(PosVel(np.array(el, dtype=float), "kepler").trs, dtype=float).ravel()
+            rn, vn = float(np.linalg.norm(t1[:3])), float(np.linalg.norm(t1[3:]))
+            if float(np.linalg.norm(trs[i][:3] - t1[:3])) > 1e-12 * rn or float(np.linalg.norm(trs[i][3:] - t1[3:])) > 1e-12 * vn:
+                gviolate(ctx, "row-of-array-vs-single-state:kepler.trs", f"row {i} of kepler.trs of an array is {trs[i].tolist()} but the same elements as a single state give {t1.tolist()}", {**case, "i": i})
     # identical numbers for (6,), (1,6) and row 0 of an array
     for sh in ("1d", "1xk"):
         k1 = PosVel(as_shape([els[0]], sh), "kepler")
@@ -407,11 +438,13 @@ def replay(payload):
     print(json.dumps(c, indent=1, default=str)[:2500])
     print("key:", payload.get("key"), "| what:", payload.get("what"))
     ctx = Ctx("C07", "quick", int(payload.get("seed", 0) or 0))
-    if c.get("fn") not in ("kepler<->trs", "use_source history", "history"):
+    if c.get("fn") not in ("kepler<->trs", "use_source history", "history", "typed-input"):
         print("no dedicated replay for this kind of case")
         return 0
     try:
-        if c["fn"] == "history":
+        if c["fn"] == "typed-input":
+            typed_case(ctx, recorded=c)
+        elif c["fn"] == "history":
             history_case(ctx, c.get("template", "recorded"), recorded=c, family=c.get("family", "posvel"))
         elif c["fn"] == "use_source history":
             gm_history(ctx, c["source"], c["GM_source"], c["leave_block_by"], c["elements"])
